@@ -112,6 +112,7 @@ WHAT = {1: "nearest sampling returned a different source pixel (got r*1000+a %d,
         3: "the result is not a valid premultiplied colour (channel %d above alpha %d)",
         4: "a pixel outside the source rectangle of draw_pixmap changed (alpha %d, was %d)",
         5: "a constant-colour image is not reproduced (got r*1000+a %d, expected %d)",
+        7: "an anti-aliased edge pixel of a Pattern fill is not the interior colour scaled by its coverage (got %d, expected %d): the pattern opacity is not applied on edge pixels",
         6: "a channel differs from the reference (filter taps and weights at the mapped position, clamps, opacity, blend): got %d, reference %d"}
 
 
